@@ -201,12 +201,33 @@ def gen_case(rnd, i, maxn):
     return {"cfg": c["cfg"], "profile": c["profile"]}
 
 
+def partial_tie_case(rnd):
+    """A three-way tie for last place in a LATER round which the initial first-place votes only half resolve ({X} above {Y, Z}):
+    a correct count draws the order of Y and Z at random (so the case is set aside as random); a count that picks one of
+    them without drawing is judged here like any deterministic run - under renaming and across hash seeds."""
+    x, y, z, p_ = rnd.sample(NAMEPOOL, 4)
+    k = rnd.randint(1, 3)
+    B = lambda r, w: canon.spec_ballot(r=[[c] for c in r], w=w)  # noqa
+    bl = [B([x, y, z], 4 * k), B([y, z, x], 3 * k), B([z, y, x], 3 * k), B([p_, y], k), B([p_, z], k)]
+    rnd.shuffle(bl)
+    rule = rnd.choice(["IRV", "STV", "SequentialRCV"])
+    cfg = {"rule": rule, "quota": "droop", "tiebreak": rnd.choice(["random", "borda", "first_place"])}
+    if rule != "IRV":
+        cfg.update(m=1, sim=True)
+    if rule == "STV":
+        cfg["transfer"] = "fractional"
+    return {"cfg": cfg, "profile": canon.spec_profile(rnd.sample([x, y, z, p_], 4), bl)}
+
+
 def run(ctx):
     maxn = 6 if ctx.quick else 7
     for i in range(ctx.n(2400, 16000)):
         if ctx.expired():
             break
         ctx.guard("check", check_case, ctx, gen_case(ctx.rnd, i, maxn))
+        if i % 40 == 3:
+            ctx.count("half_resolved_elimination_tie_cases")
+            ctx.guard("check", check_case, ctx, partial_tie_case(ctx.rnd))
 
 
 def post(results, fails, counters):
